@@ -61,6 +61,11 @@ func (ex *Exec) defVal(v ssa.Value, t *Term) {
 	if t.Size() > 8 {
 		c := ex.D.Fresh(v.Name(), t.S)
 		ex.assume(Eq(c, t))
+		if t.S == SStr {
+			if p, ok := ex.concatPrefix[t.String()]; ok {
+				ex.concatPrefix[c.String()] = p
+			}
+		}
 		t = c
 	}
 	ex.vals[v] = Val{T: t, Ty: v.Type()}
@@ -467,7 +472,30 @@ func (ex *Exec) concat(a, b *Term) *Term {
 		return a
 	}
 	ex.needConcat = true
-	return ex.D.Fn("concat", SStr, a, b)
+	c := ex.D.Fn("sconcat", SStr, a, b)
+	key := c.String()
+	if _, done := ex.concatPrefix[key]; done {
+		return c
+	}
+	// ground consequences of the concat axioms for this term: offset, length
+	// and the bytes of its known literal prefix
+	prefix := ""
+	if la, ok := ex.litOf(a); ok {
+		prefix = la
+		if lb, ok := ex.litOf(b); ok {
+			prefix += lb
+		} else if pb, ok := ex.concatPrefix[b.String()]; ok && len(la) == len(prefix) {
+			prefix += pb
+		}
+	} else if pa, ok := ex.concatPrefix[a.String()]; ok {
+		prefix = pa
+	}
+	ex.concatPrefix[key] = prefix
+	ex.globalFacts = append(ex.globalFacts, Eq(SOff(c), IntLit(0)), Eq(SLen(c), Add(SLen(a), SLen(b))))
+	for i := 0; i < len(prefix) && i < 64; i++ {
+		ex.globalFacts = append(ex.globalFacts, Eq(Select(SArr(c), IntLit(int64(i))), IntLit(int64(prefix[i]))))
+	}
+	return c
 }
 
 func (ex *Exec) stepFieldAddr(x *ssa.FieldAddr) {
